@@ -139,6 +139,10 @@ pub fn check_ro<P: SimPrefix, L: SimVal, Rr: SimVal>(ctx: &mut Ctx, a: &TrieView
         chk!(ctx, "C05", !c, "diverge:union", "union yields more than {cap2} items; {desc}");
         chk!(ctx, "C05", cores(&got) == cores(&exp), format!("union:items:{relsig}"), "union yields {:?}, expected {:?}; {desc}", got, exp);
         chk!(ctx, "C05", f, "fused:union", "union yields an item after None; {desc}");
+        if cores(&got) == cores(&exp) {
+            let ok = got.iter().zip(exp.iter()).all(|(g, e)| g.raw == e.raw || (g.tag == 0 && eb.iter().any(|x| x.raw == g.raw)));
+            chk!(ctx, "C05", ok, "union:stored-prefix", "union yields prefixes {:?}, stored as {:?}; {desc}", got.iter().map(|x| x.raw).collect::<Vec<_>>(), exp.iter().map(|x| x.raw).collect::<Vec<_>>());
+        }
         chk!(ctx, "C08", acc, "union:accessors", "UnionItem::left()/right()/both()/prefix() disagree with the item's fields; {desc}");
         if cores(&got) == cores(&exp) {
             if anns(&exp).iter().any(|x| x.1.is_some()) {
@@ -212,6 +216,9 @@ pub fn check_ro<P: SimPrefix, L: SimVal, Rr: SimVal>(ctx: &mut Ctx, a: &TrieView
         chk!(ctx, "C07", !c, "diverge:difference", "difference yields more than {cap2} items; {desc}");
         chk!(ctx, "C07", cores(&got) == cores(&exp), format!("difference:items:{relsig}"), "difference yields {:?}, expected {:?}; {desc}", got, exp);
         chk!(ctx, "C07", f, "fused:difference", "difference yields an item after None; {desc}");
+        if cores(&got) == cores(&exp) {
+            chk!(ctx, "C07", got.iter().map(|x| x.raw).collect::<Vec<_>>() == exp.iter().map(|x| x.raw).collect::<Vec<_>>(), "difference:stored-prefix", "difference yields prefixes {:?}, a stores them as {:?}; {desc}", got.iter().map(|x| x.raw).collect::<Vec<_>>(), exp.iter().map(|x| x.raw).collect::<Vec<_>>());
+        }
         for g in &got {
             let ra = ea.iter().find(|x| x.key == g.raw.key()).map(|x| x.raw);
             chk!(ctx, "C18", Some(g.raw) == ra, "repr:difference", "difference item reports prefix {}, stored representation is {:?}", g.raw, ra);
@@ -235,6 +242,9 @@ pub fn check_ro<P: SimPrefix, L: SimVal, Rr: SimVal>(ctx: &mut Ctx, a: &TrieView
         chk!(ctx, "C07", !c, "diverge:covering_difference", "covering_difference yields more than {cap2} items; {desc}");
         chk!(ctx, "C07", cores(&got) == cores(&exp), format!("covering_difference:items:{relsig}"), "covering_difference yields {:?}, expected {:?}; {desc}", got, exp);
         chk!(ctx, "C07", f, "fused:covering_difference", "covering_difference yields an item after None; {desc}");
+        if cores(&got) == cores(&exp) {
+            chk!(ctx, "C07", got.iter().map(|x| x.raw).collect::<Vec<_>>() == exp.iter().map(|x| x.raw).collect::<Vec<_>>(), "covering_difference:stored-prefix", "covering_difference yields prefixes {:?}, a stores them as {:?}; {desc}", got.iter().map(|x| x.raw).collect::<Vec<_>>(), exp.iter().map(|x| x.raw).collect::<Vec<_>>());
+        }
     }
     Ok(())
 }
